@@ -71,7 +71,8 @@ def replay_case(item):
         eff = sz_ if sz_ >= 1 else ((en_ + 1 - st_) if (st_ > 0 and en_ > 0 and en_ >= st_) else 7)
         if ov_ >= eff:
             return {'ok': 2, 'obs': None, 'mode': mode}
-    kind = ('plainrv0' if i % 4 == 1 else 'plain') if mode == 'plain' else ('ssi' if i % 7 == 3 else 'rv0' if i % 7 == 5 else 'vars')
+    kind = ('plainrv0' if i % 4 == 1 else 'plain') if mode == 'plain' else ('ssi' if i % 7 == 3 else 'rv0' if i % 7 == 5 else
+                                                                                 'guard' if i % 7 == 1 else 'vars')
     extra = batch_obs.PB if mode == 'pb' else ''
     if mode == 'batch' and kind in ('vars', 'rv0') and par[2] <= 0 and par[3] >= 1 and i % 3 == 2:
         extra = batch_obs.NEST
